@@ -32,7 +32,7 @@ def run(tier, name):
     cfg = "MCExec.cfg"
     if tier == "thorough":
         with open(os.path.join(C.SPEC, "MCExec.cfg")) as f:
-            txt = f.read().replace("MaxLen = 2", "MaxLen = 3")
+            txt = f.read().replace("MaxLen1 = 2", "MaxLen1 = 3")
         with open(os.path.join(C.SPEC, "MCExec3.cfg"), "w") as f:
             f.write(txt)
         cfg = "MCExec3.cfg"
